@@ -100,10 +100,84 @@ impl Ctx {
         let (shape, args) = self.parse_pieces(m);
         let node = self.uf_apply(UfSig { name: name.to_string(), shape }, args);
         if self.cfg.dense {
-            let v = self.eval(0, node);
+            let v = self.dense_value(node);
             return self.cst(v);
         }
         node
+    }
+
+    /// dense mode: the constant standing for an atom (hash output or random draw). Pseudo-random
+    /// (the atom's world-0 value) or, with `dense_pattern`, one of a list of structured bit patterns
+    /// chosen to stress the NAF recoding: runs of ones across 64-bit limb boundaries, every 5-bit
+    /// window equal to 15 / 17 / 31, zero and 0xFF top bytes, tiny values, q-1.
+    pub fn dense_value(&mut self, atom: u32) -> U {
+        if let Some(v) = self.dense_consts.get(&atom) {
+            return *v;
+        }
+        let v = match self.cfg.dense_pattern {
+            None => self.eval(0, atom),
+            Some(off) => {
+                let k = (off as usize + self.dense_consts.len()) % 18;
+                let ones = |lo: usize, hi: usize| -> U {
+                    let mut u = U::ZERO;
+                    for i in lo..hi {
+                        u.0[i / 64] |= 1u64 << (i % 64);
+                    }
+                    u
+                };
+                let or = |a: U, b: U| -> U {
+                    let mut r = a;
+                    for i in 0..crate::bn::NL {
+                        r.0[i] |= b.0[i];
+                    }
+                    r
+                };
+                let every5 = |d: u64| -> U {
+                    let mut u = U::ZERO;
+                    let mut pos = 0;
+                    while pos + 5 <= 250 {
+                        for b in 0..5 {
+                            if (d >> b) & 1 == 1 {
+                                u.0[(pos + b) / 64] |= 1u64 << ((pos + b) % 64);
+                            }
+                        }
+                        pos += 5;
+                    }
+                    u
+                };
+                let rnd = self.eval(0, atom);
+                let raw = match k {
+                    0 => ones(0, 252),
+                    1 => self.m.q.sbb(&U::ONE).0,
+                    2 => or(or(ones(59, 69), ones(123, 133)), ones(187, 197)),
+                    3 => U([0x0F0F_0F0F_0F0F_0F0F, 0x0F0F_0F0F_0F0F_0F0F, 0x0F0F_0F0F_0F0F_0F0F, 0x000F_0F0F_0F0F_0F0F, 0, 0, 0, 0]),
+                    4 => U([0xFFFF_0000_FFFF_0000, 0x0000_FFFF_0000_FFFF, 0xFFFF_0000_FFFF_0000, 0x0000_FFFF_0000_FFFF, 0, 0, 0, 0]),
+                    5 => every5(15),
+                    6 => every5(17),
+                    7 => every5(31),
+                    8 => every5(16),
+                    9 => {
+                        let mut u = rnd;
+                        u.0[3] &= 0x0000_00FF_FFFF_FFFF; // top bytes zero
+                        for i in 4..crate::bn::NL {
+                            u.0[i] = 0;
+                        }
+                        u
+                    }
+                    10 => or(ones(244, 252), U([rnd.0[0], 0, 0, 0, 0, 0, 0, 0])),
+                    11 => U::ONE,
+                    12 => U::from_u64(16),
+                    13 => U::from_u64(31),
+                    14 => or(ones(63, 65), ones(127, 129)),
+                    15 => ones(60, 64),
+                    16 => or(ones(0, 1), ones(251, 252)),
+                    _ => rnd,
+                };
+                self.m.reduce(&raw)
+            }
+        };
+        self.dense_consts.insert(atom, v);
+        v
     }
 
     /// split a byte string into literal chunks and embedded symbolic blocks
@@ -163,7 +237,7 @@ impl Ctx {
             // pseudo-random constant bytes (world-0 values of the chunk variables)
             for (j, ch) in out.chunks_mut(32).enumerate() {
                 let vj = if j == 0 { v } else { self.var(&format!("rng#{k}.{j}")) };
-                let val = self.eval(0, vj);
+                let val = self.dense_value(vj);
                 let b = val.to_le_bytes();
                 let n = ch.len();
                 ch.copy_from_slice(&b[..n]);
